@@ -248,6 +248,23 @@ def x86_worker(arg):
             ops = [("L", 1) if op[0] == "L" else op for op in c["ops"]]
             extra.append(dict(c, id=gen.next_id, ops=ops, variant=c["variant"] + "-unbound"))
             gen.next_id += 1
+    # ... and every base case with a memory operand once more with `[unbound label + disp]` as the address: the machine-code
+    # column then carries the `........` placeholder between the opcode bytes and a trailing immediate
+    for c in cases:
+        if c["variant"] not in ("base", "base-mem", "mem-b", "mem-bd8", "mem-bd32") or any(op[0] == "L" for op in c["ops"]):
+            continue
+        mi = [i for i, op in enumerate(c["ops"]) if op[0] == "M"]
+        if len(mi) != 1:
+            continue
+        m = c["ops"][mi[0]][1]
+        if not m["base"] or m["base"][0] not in ("gp32", "gp64") or m["index"] or m["seg"] or m["addr"] != "default":
+            continue
+        if m["base"][0] != ("gp64" if c["arch"] == "x64" else "gp32"):
+            continue   # an address-size override has no label form
+        ops = list(c["ops"])
+        ops[mi[0]] = ("M", dict(m, base=("label", 1), disp=m["disp"] if -2**31 <= m["disp"] < 2**31 else 8))
+        extra.append(dict(c, id=gen.next_id, ops=ops, variant=c["variant"] + "-label-unbound"))
+        gen.next_id += 1
     cases += extra
     if only_ids is not None:
         cases = [c for c in cases if c["id"] in only_ids]
